@@ -536,9 +536,10 @@ class MQTTProtocol(MQTTBaseProtocol):
         Refills the Publisher transmission window from the queue 
         '''
         cnx = self.addr
-        N = min(self._window - len(self.factory.windowPublish[cnx]), len(self.factory.queuePublishTx[cnx]))
-        for i in range(0,N):
-            request = self.factory.queuePublishTx[cnx].popleft()
+        queue = self.factory.queuePublishTx[cnx]
+        # QoS 0 messages do not occupy the window; QoS 1 & 2 wait for a free slot
+        while queue and (not queue[0].msgId or len(self.factory.windowPublish[cnx]) < self._window):
+            request = queue.popleft()
             if request.msgId:   # only form QoS 1 & 2
                 self.factory.windowPublish[cnx][request.msgId] = request
             self._retryPublish(request, dup)
